@@ -39,6 +39,8 @@ func (stubTxKeyResolver) ResolvePublicKey(kid string, _ []hash.SHA256Hash) (cryp
 }
 
 var dagSeq int
+var dagRootTx dag.Transaction
+var dagRootPayload []byte
 
 func newDagFix(t *testing.T) *dagFix {
 	dagSeq++
@@ -56,7 +58,11 @@ func newDagFix(t *testing.T) *dagFix {
 		t.Fatal(err)
 	}
 	f := &dagFix{state: st, db: db}
-	rootTx, rootPayload := mustTx(txHeader(nil, 0, true, nil), payloadNum(0))
+	// one root per process, so that a fixture that replaces a poisoned one holds the same DAG
+	if dagRootTx == nil {
+		dagRootTx, dagRootPayload = mustTx(txHeader(nil, 0, true, nil), payloadNum(0))
+	}
+	rootTx, rootPayload := dagRootTx, dagRootPayload
 	if err := st.Add(context.Background(), rootTx, rootPayload); err != nil {
 		t.Fatalf("harness: root transaction refused: %v", err)
 	}
@@ -229,8 +235,14 @@ func init() {
 				return "ok"
 			}
 		}
+		// not sharded: the whole table enumeration costs about a second, and a non-terminating decoder must not
+		// leave abandoned goroutines in every worker. Deadline 4 s = more than 10^5 x the normal cost of a call.
+		if !s.FirstShard() {
+			return
+		}
+		s.EntryDeadline[name] = 4 * time.Second
 		run := func(desc string, nb int, local []int, data []byte) {
-			s.Case(name, desc, true, false, func() ([]byte, func() string) { return data, call(nb, local, data) })
+			s.Case(name, desc, false, false, func() ([]byte, func() string) { return data, call(nb, local, data) })
 		}
 		valid := func(nb int, set []int) []byte {
 			i := tree.NewIblt(nb)
